@@ -2297,6 +2297,30 @@ def verify_leading_dirs(
         safe_prefix.append(part)
 
 
+def _lstat_tracked_path(
+    tree_path: bytes, full_path: bytes, repo_path: bytes
+) -> os.stat_result:
+    """``lstat`` a tracked path that is about to be compared or removed.
+
+    A path whose leading directory is a symlink in the work tree is not in
+    the work tree at all: ``lstat``/``unlink``/``rmdir`` on it would act on
+    whatever the link points at, possibly outside the work tree or inside
+    ``.git``. Like git (``unlink_entry``/``check_leading_path`` in
+    unpack-trees.c, see CVE-2021-21300) treat it as already gone.
+
+    Raises:
+      FileNotFoundError: If the path does not exist or a leading component
+        is a symlink.
+    """
+    try:
+        verify_leading_dirs(tree_path, [], repo_path)
+    except InvalidPathError as e:
+        raise FileNotFoundError(
+            errno.ENOENT, "leading directory is a symlink", full_path
+        ) from e
+    return os.lstat(full_path)
+
+
 def build_index_from_tree(
     root_path: str | bytes,
     index_path: str | bytes,
@@ -3040,7 +3064,7 @@ def update_working_tree(
     for path in paths_becoming_dirs:
         full_path = _tree_to_fs_path(repo_path, path, tree_encoding)
         try:
-            current_stat = os.lstat(full_path)
+            current_stat = _lstat_tracked_path(path, full_path, repo_path)
         except FileNotFoundError:
             continue  # File doesn't exist, nothing to check
         except OSError as e:
@@ -3093,7 +3117,7 @@ def update_working_tree(
 
                 full_path = _tree_to_fs_path(repo_path, path, tree_encoding)
                 try:
-                    current_stat = os.lstat(full_path)
+                    current_stat = _lstat_tracked_path(path, full_path, repo_path)
                 except FileNotFoundError:
                     continue  # File doesn't exist, nothing to check
                 except OSError as e:
@@ -3137,7 +3161,9 @@ def update_working_tree(
 
             full_path = _tree_to_fs_path(repo_path, path, tree_encoding)
             try:
-                delete_stat: os.stat_result | None = os.lstat(full_path)
+                delete_stat: os.stat_result | None = _lstat_tracked_path(
+                    path, full_path, repo_path
+                )
             except FileNotFoundError:
                 delete_stat = None
             except OSError as e:
